@@ -100,7 +100,7 @@ func (w *World) read(ctx context.Context, field string) error {
 			select {
 			case <-ctx.Done():
 				return ctx.Err()
-			case <-time.After(1500 * time.Millisecond):
+			case <-time.After(600 * time.Millisecond):
 				return errors.New("blocked resolver gave up in " + field)
 			}
 		case "safe":
